@@ -9,26 +9,29 @@ mod find;
 use find::*;
 
 pub struct Out {
+    /// Gen/Constants.v body
     pub constants: String,
+    /// further generated files: name (without .v) -> body (each gets the standard header)
+    pub files: BTreeMap<String, String>,
     pub obligations: Vec<(String, bool, String)>,
     pub meta: BTreeMap<String, serde_json::Value>,
 }
 
 impl Out {
-    fn ok(&mut self, item: &str, detail: &str) {
+    pub fn ok(&mut self, item: &str, detail: &str) {
         self.obligations.push((item.to_string(), true, detail.to_string()));
     }
-    fn fail(&mut self, item: &str, detail: &str) {
+    pub fn fail(&mut self, item: &str, detail: &str) {
         self.obligations.push((item.to_string(), false, detail.to_string()));
     }
-    fn def_bytes(&mut self, name: &str, b: &[u8], src: &str) {
+    pub fn def_bytes(&mut self, name: &str, b: &[u8], src: &str) {
         let l: Vec<String> = b.iter().map(|x| x.to_string()).collect();
         writeln!(self.constants, "(* {src} *)\nDefinition {name} : bytes := [{}].", l.join("; ")).unwrap();
     }
-    fn def_n(&mut self, name: &str, n: u128, src: &str) {
+    pub fn def_n(&mut self, name: &str, n: u128, src: &str) {
         writeln!(self.constants, "(* {src} *)\nDefinition {name} : N := {n}.").unwrap();
     }
-    fn def_z(&mut self, name: &str, n: i128, src: &str) {
+    pub fn def_z(&mut self, name: &str, n: i128, src: &str) {
         let s = if n < 0 { format!("({n})") } else { n.to_string() };
         writeln!(self.constants, "(* {src} *)\nDefinition {name} : Z := {s}%Z.").unwrap();
     }
@@ -108,12 +111,15 @@ fn main() {
     let args: Vec<String> = std::env::args().collect();
     let repo = args.get(1).cloned().unwrap_or_else(|| "/repo".into());
     let outdir = args.get(2).cloned().unwrap_or_else(|| "/verif/coq/Gen".into());
-    let mut out = Out { constants: String::new(), obligations: vec![], meta: BTreeMap::new() };
+    let mut out = Out { constants: String::new(), files: BTreeMap::new(), obligations: vec![], meta: BTreeMap::new() };
     session_constants(&repo, &mut out);
     presentation_constants(&repo, &mut out);
 
     let header = "(* GENERATED by /verif/translator from /repo's current source on every run. Do not edit. *)\nFrom Isomdl Require Import Lib.Bytes.\nOpen Scope N_scope.\n\n";
     write_if_changed(&format!("{outdir}/Constants.v"), &format!("{header}{}", out.constants));
+    for (name, body) in &out.files {
+        write_if_changed(&format!("{outdir}/{name}.v"), &format!("{header}{body}"));
+    }
     let obl: Vec<serde_json::Value> = out
         .obligations
         .iter()
